@@ -503,6 +503,22 @@ func runAll(seed uint64, tier, outDir string, workers int, keep, doShrink bool) 
 	}
 	sort.Strings(sigs)
 
+	// a timeout, memory or crash verdict reached while all workers were busy is re-run alone with
+	// the full 10 s watchdog: on a loaded machine a slow (not hanging) input must not be reported
+	unconfirmed := 0
+	{
+		var keep []string
+		for _, s := range sigs {
+			f := best[s]
+			if f.class == clsPanic || f.class == clsBadPos || confirmAlone(self, work, f) {
+				keep = append(keep, s)
+			} else {
+				unconfirmed++
+			}
+		}
+		sigs = keep
+	}
+
 	// shrink the shortest input of every signature
 	if doShrink {
 		budget := 20 * time.Second
@@ -543,6 +559,7 @@ func runAll(seed uint64, tier, outDir string, workers int, keep, doShrink bool) 
 	fmt.Fprintf(w, "accepted_valid %d/%d\n", validOK, validAll)
 	fmt.Fprintf(w, "parsed_valid %d/%d\n", validParse, validAll)
 	fmt.Fprintf(w, "excluded-wide-mux %d\n", excluded)
+	fmt.Fprintf(w, "unconfirmed-timeouts %d\n", unconfirmed)
 	for _, s := range sigs {
 		f := best[s]
 		text := f.text
@@ -624,6 +641,27 @@ func sortedKeys(m map[string]int) []string {
 // ---- shrinking ---------------------------------------------------------------------------------
 
 var shrinkSeq atomic.Int64
+
+// confirmAlone re-runs one failing input in a child of its own, nothing else running.
+func confirmAlone(self, work string, f *failure) bool {
+	seq := shrinkSeq.Add(1)
+	b := &batch{self: self, dir: work, tag: fmt.Sprintf("confirm%d", seq), ins: []input{{idx: 0, stream: "confirm", short: true, text: f.text}}, timeoutSec: 10}
+	res, err := b.run()
+	for _, ext := range [][2]string{{"inputs", "bin"}, {"log", "txt"}, {"cases", "txt"}, {"stderr", "txt"}} {
+		os.Remove(b.path(ext[0], ext[1]))
+	}
+	if err != nil {
+		return true // cannot tell: keep the verdict
+	}
+	for _, r := range res {
+		for _, s := range sigsOf(r) {
+			if strings.HasPrefix(s, f.stage+"-"+clsHang+"-") || strings.HasPrefix(s, f.stage+"-"+clsMem+"-") || strings.HasPrefix(s, f.stage+"-"+clsCrash+"-") {
+				return true
+			}
+		}
+	}
+	return false
+}
 
 // keeps: which candidates still show the signature.
 func keeps(self, work string, f *failure, cands [][]byte, deadline time.Time) (int, error) {
